@@ -180,6 +180,9 @@ func (f Float) ToString() String {
 }
 
 func (f Float) Hash() UInt64 {
+	if f == 0 {
+		f = 0 // 0.0 == -0.0: both zeros must hash alike
+	}
 	d := xxhash.New()
 	b := make([]byte, 8)
 	binary.LittleEndian.PutUint64(b, math.Float64bits(float64(f)))
